@@ -91,8 +91,8 @@ var overrides = map[string]ov{
 
 // zcrypto-specific fields (not in upstream crypto/tls)
 var zcryptoFields = map[string]bool{
-	"clientHelloMsg.extendedRandomEnabled": true, "clientHelloMsg.extendedMasterSecret": true, "clientHelloMsg.sctEnabled": true,
-	"clientHelloMsg.unknownExtensions": true, "serverHelloMsg.extendedMasterSecret": true, "serverHelloMsg.unknownExtensions": true,
+	"clientHelloMsg.extendedRandomEnabled": true, "clientHelloMsg.extendedMasterSecret": true,
+	"serverHelloMsg.extendedMasterSecret": true, "serverHelloMsg.unknownExtensions": true,
 	"newSessionTicketMsg.lifetimeHint": true,
 }
 
